@@ -1,7 +1,7 @@
 (* C19 -- property theorems only.  Proofs live in C19/Proofs*.v. *)
 From Coq Require Import NArith List.
 From DV Require Import Base.Outcome Base.Bytes Base.Names Base.PName C19.Gen C19.Model
-  C19.ModelCmp C19.ProofsDec C19.ProofsOld C19.ProofsNew C19.ProofsAgree C19.ProofsCmp C19.ProofsCmpSound C19.ProofsCmpInv C19.ProofsRev C19.ModelEdns C19.ModelMsg C19.ProofsItems C19.ProofsEdns C19.ProofsCmpRev C19.ProofsCmpRegions C19.ProofsMsg C19.ProofsMsgIff C19.ProofsFlat C01.Model C01.Model3 C05.OptModel.
+  C19.ModelCmp C19.ProofsDec C19.ProofsOld C19.ProofsNew C19.ProofsAgree C19.ProofsCmp C19.ProofsCmpSound C19.ProofsCmpInv C19.ProofsRev C19.ModelEdns C19.ModelMsg C19.ProofsItems C19.ProofsEdns C19.ProofsCmpRev C19.ProofsCmpRegions C19.ProofsMsg C19.ProofsMsgIff C19.ProofsFlat C19.ProofsMsgWhole C01.Model C01.Model3 C05.OptModel.
 Import ListNotations.
 Local Open Scope N_scope.
 
@@ -311,3 +311,17 @@ Theorem C19_flat_split_complete : forall n rest, valid_abs n ->
   flat_split (wire_abs n ++ rest) = Ok (wire_abs n, rest).
 Proof. exact flat_split_complete. Qed.
 Print Assumptions C19_flat_split_complete.
+
+(* ---- final round: the whole message ---- *)
+(* MessageParser reads a message to completion (no error item, all four header
+   counts satisfied) iff C01's model of the old codec does: the question section
+   iterates clean, answer() and both next_section() - which re-walk a section
+   with record_skip - reach the record sections, and each iterates clean.
+   Premises: no pointer of a known class, no `0 0 41` item, no OPT record. *)
+Theorem C19_whole_message_iff : forall h c, length h = 12%nat -> wf_bytes c ->
+  (forall p, kclass (h ++ c) p = KNone) ->
+  (forall off, starts_with (skipn (N.to_nat off) c) edns_prefix = false) ->
+  (forall pos r, record_parse (h ++ c) pos (mlen (h ++ c)) = Ok r -> rr_type r <> 41) ->
+  ((exists items off, mp_run (h ++ c) = Some (Ok (items, off, true))) <-> old_msg_ok (h ++ c)).
+Proof. exact whole_message_iff. Qed.
+Print Assumptions C19_whole_message_iff.
